@@ -22,7 +22,7 @@ import (
 // Relations R1..R6 (see DESIGN.md §2) are checked on every transition; residency is observed
 // black-box by probing replayed copies with Get.
 
-const lruSlack = 128 // generous reading of "fits": size + 128 bytes per entry (real overhead: 72)
+const lruSlack = 128 // generous reading of "fits": size + 128 bytes per entry (real overhead: 64)
 
 type lruOp struct {
 	Get   bool   `json:"get,omitempty"`
@@ -451,7 +451,7 @@ func c07Run(ctx *rt.Ctx) []*rt.Violation {
 	ctx.Cov.Note("alphabet", "Get(k), Put(k,class) for k in 1..3, class in empty/small/medium/large (15 operations)")
 	ctx.Cov.Note("rule", "BFS to fixpoint per capacity over histories of the real LRUCache; state = dump of real internal state + model state; relations R1-R6 on every transition; residency by black-box Get probes on replayed copies")
 	ctx.Assumef("the future behaviour of the cache depends only on the recency-ordered (key, accounted size, bitmap size) list and the byte counter, which is what states are merged on")
-	ctx.Assumef("'fits'/'comfortably' are read generously as size+%d bytes per entry (real overhead 72): between that and the hard byte bound either behaviour is accepted", lruSlack)
+	ctx.Assumef("'fits'/'comfortably' are read generously as size+%d bytes per entry (real overhead 64): between that and the hard byte bound either behaviour is accepted", lruSlack)
 	return vs
 }
 
